@@ -33,6 +33,7 @@ QString qtMsgTypeToSentryLevel(QtMsgType type)
 
 } // namespace
 
+QTLOGGER_DECL_SPEC
 SentryFormatter::SentryFormatter(const QString &sdkName, const QString &sdkVersion)
     : m_sdkName(sdkName), m_sdkVersion(sdkVersion)
 {
